@@ -1316,12 +1316,12 @@ theorem leaf_invariant_iff (l : Leaf) :
 /-- **X1. What `_compact_markers` builds satisfies the invariant** (every syntax tree). -/
 theorem compact_sub_markers_invariant (syn : Syn) (subs : List M) (h : compactSubMarkers syn = .ok subs) :
     ∀ m ∈ subs, M.Good (LeafOK GoodVC) m :=
-  compactSubMarkers_good vc_err_documented vcOpsTotal_good syn subs h
+  compactSubMarkers_good vc_err_documented vcOpsTotal_good.toMin syn subs h
 
 /-- a `SingleMarker` built from a name and a constraint string satisfies it -/
 theorem mk_single_invariant (name cstr : String) (sw : Bool) (s : Single) (h : mkSingle name cstr sw = .ok s) :
     LeafOK GoodVC (.single s) := by
-  have := (mkSingle_res (sb := true) vc_err_documented vcOpsTotal_good name cstr sw).of_ok h
+  have := (mkSingle_res (sb := true) vc_err_documented vcOpsTotal_good.toMin name cstr sw).of_ok h
   simpa using this
 
 /-- **X2. The whole mutual block preserves the invariant and, on invariant operands, fails only with fuel,
@@ -1329,7 +1329,7 @@ theorem mk_single_invariant (name cstr : String) (sw : Bool) (s : Single) (h : m
 `intersect`, `union`, `intersection`, `union`, `cnf`, `dnf`, `MultiMarker.of`, `MarkerUnion.of` and their
 loops, `intersect_simplify`, `union_simplify` (`InvAt`: one `Res` statement per function). -/
 theorem simplifier_invariant (n : Nat) : InvAt (LeafOK GoodVC) MErr n :=
-  simplifier_invAt vc_err_documented vcOpsTotal_good n
+  simplifier_invAt vc_err_documented vcOpsTotal_good.toMin n
 
 /-- **X2 (the leaf merge).** On two leaves satisfying the invariant `_merge_single_markers` returns a marker
 satisfying it, or fails with fuel / lark's error / `ValueError` / `.unmodelled`: no `AssertionError`, no error
@@ -1339,19 +1339,19 @@ theorem merge_invariant (l1 l2 : Leaf) (isMulti : Bool) (h1 : LeafOK GoodVC l1) 
     (∀ r, mergeLeaves l1 l2 isMulti = .ok (some r) → M.Good (LeafOK GoodVC) r) ∧
     (∀ e, mergeLeaves l1 l2 isMulti = .error e →
       e = .fuel ∨ e = .recursion ∨ e = .syntax ∨ e = .value ∨ e = .unmodelled) := by
-  have R := mergeLeaves_res vc_err_documented vcOpsTotal_good l1 l2 isMulti h1 h2
+  have R := mergeLeaves_res vc_err_documented vcOpsTotal_good.toMin l1 l2 isMulti h1 h2
   exact ⟨fun r h => R.of_ok h r rfl, fun e h => FinalErr.ofBlock (R.of_err h)⟩
 
 /-- **X3. `union(*markers)` on invariant operands — no residue.** -/
 theorem simplifier_err_classified_final (fuel : Nat) (stk : Stack) (ms : List M)
     (hg : ∀ m ∈ ms, M.Good (LeafOK GoodVC) m) (e : PyErr) (h : unionF fuel stk ms = .error e) :
     e = .fuel ∨ e = .recursion ∨ e = .syntax ∨ e = .value ∨ e = .unmodelled :=
-  (unionF_final vc_err_documented vcOpsTotal_good fuel stk ms hg).1 e h
+  (unionF_final vc_err_documented vcOpsTotal_good.toMin fuel stk ms hg).1 e h
 
 theorem simplifier_result_invariant (fuel : Nat) (stk : Stack) (ms : List M)
     (hg : ∀ m ∈ ms, M.Good (LeafOK GoodVC) m) (r : M) (h : unionF fuel stk ms = .ok r) :
     M.Good (LeafOK GoodVC) r :=
-  (unionF_final vc_err_documented vcOpsTotal_good fuel stk ms hg).2 r h
+  (unionF_final vc_err_documented vcOpsTotal_good.toMin fuel stk ms hg).2 r h
 
 /-- the hypothesis is met by what the grammar and `_compact_markers` produce: -/
 example : ∃ subs, compactSubMarkers (.more (.item "python_version" ">=" "3.8" false) false
@@ -1368,7 +1368,7 @@ example : ∃ subs, compactSubMarkers (.more (.item "python_version" ">=" "3.8" 
 satisfies the invariant. -/
 theorem parse_marker_err_classified_final (s : String) (e : PyErr) (h : parseMarker s = .error e) :
     e = .syntax ∨ e = .value ∨ e = .unmodelled ∨ e = .fuel ∨ e = .recursion := by
-  rcases (parseMarker_final vc_err_documented vcOpsTotal_good s).1 e h with h | h | h | h | h
+  rcases (parseMarker_final vc_err_documented vcOpsTotal_good.toMin s).1 e h with h | h | h | h | h
   · exact .inr (.inr (.inr (.inl h)))
   · exact .inr (.inr (.inr (.inr h)))
   · exact .inl h
@@ -1376,7 +1376,7 @@ theorem parse_marker_err_classified_final (s : String) (e : PyErr) (h : parseMar
   · exact .inr (.inr (.inl h))
 
 theorem parse_marker_result_invariant (s : String) (m : M) (h : parseMarker s = .ok m) :
-    M.Good (LeafOK GoodVC) m := (parseMarker_final vc_err_documented vcOpsTotal_good s).2 m h
+    M.Good (LeafOK GoodVC) m := (parseMarker_final vc_err_documented vcOpsTotal_good.toMin s).2 m h
 
 /-- the full statement for the public function: the documented errors only.  What separates the theorem
 below from it: `.unmodelled` (model coverage), `.fuel` (model budget). -/
@@ -1403,7 +1403,7 @@ theorem req_parse_err_classified_final (s : String) (e : PyErr) (h : Req.parse s
   · exact .inl h
   · exact .inr (.inl h)
   · exact .inl (vc_parse_err_documented _ false e h)
-  · rcases (compactTop_final vc_err_documented vcOpsTotal_good syn).1 e h with h | h | h | h | h
+  · rcases (compactTop_final vc_err_documented vcOpsTotal_good.toMin syn).1 e h with h | h | h | h | h
     · exact .inr (.inr (.inl h))
     · exact .inr (.inr (.inr (.inl h)))
     · exact .inr (.inr (.inr (.inr h)))
@@ -1623,7 +1623,7 @@ theorem dep_from_parsed_req_err_documented (text : List Char) (req : Requirement
   · rcases setMarker_err d m e h with h | ⟨key, h⟩ | ⟨t, h⟩
     · exact .inl h
     · obtain ⟨syn, hsyn⟩ := parsed_req_marker text req m hreq hm
-      have hgood := (compactTop_final vc_err_documented vcOpsTotal_good syn).2 m hsyn
+      have hgood := (compactTop_final vc_err_documented vcOpsTotal_good.toMin syn).2 m hsyn
       have hd := convertMarkersFor_err key m e h
       have hres := (simplifier_invariant defaultFuel).dnf [] m hgood
       rw [hd] at hres
@@ -1670,18 +1670,23 @@ With that printing:
   `ESCAPED_STRING` scanner: `parseText_tok`), and every leaf built from an item `name op <token>` (operator not
   `~=`) stores a lexable value (`mkSingle_lexLeaf`: the stored value is the token minus a prefix of plain
   characters, cut at a newline; the `.0` padding is plain);
-* hence for every accepted text without swapped items and without `~=`, `invert` of the un-simplified marker never
-  raises lark's error (`invert_no_syntax_grammar`) — no hypothesis on the values.
+* on a swapped item `<token> op name` the value `STR_CMP_CONSTRAINT` stores is the whole token (only the last quote can
+  be followed by the operator tail: `matchStrCmp_swapped`) and the stored operator is never `~=`;
+* hence for every accepted text without an item `name ~= "value"` (`SynNoCompat`), `invert` of the un-simplified
+  marker never raises lark's error (`invert_no_syntax_grammar`) — no hypothesis on the values.
 STILL FALSE at the constructor level (real, replayed): `SingleMarker("os_name", "==a'\"b").invert()` and
 `SingleMarker("os_name", "==a'\\").invert()` raise `UnexpectedCharacters` — a value holding `'` is written between
 double quotes unchanged, which is only right for values that came out of an `ESCAPED_STRING` token;
 `SingleMarker("foo", "==x").invert()` too (unknown name).  These objects cannot come out of `parse_marker`.
 The simplifier part: `MergeNoSyntax` (the leaf merge returns invariant leaves and does not raise lark's error) is
-PROVED for markers that do not mention `python_version` / `python_full_version` (`merge_no_syntax_nopy`; both
-re-parsing steps of the merge sit in the python-version branches), which removes the hypothesis from the
-`*_nopy` statements for `parse_marker` and `Requirement`; it stays a named hypothesis for the python-version leaves.
-NOT reached (named missing lemmas): (b) swapped items `"value" op name` and `~=` (`SynPlain`): needs "the operator
-group of `STR_CMP_CONSTRAINT` is never `~=`", "its value group is the whole token" and, for `~=`, (a1); for the
+PROVED for markers that do not mention BOTH `python_version` and `python_full_version` (`merge_no_syntax_no_pv`,
+`merge_no_syntax_no_pfv` — the latter uses the version-text invariant of Proofs/ParserTotalVC5.lean), which removes
+the hypothesis from the `*_not_both` statements for `parse_marker` and `Requirement`; it stays a named hypothesis
+for markers holding both variables (the rewriting of a merged `python_full_version` marker, (a3)).
+* `~=` items: inverting them prints the bounds of the parsed constraint, whose texts are made of version characters
+  (Proofs/ParserTotalVC5.lean) — so `invert` of the un-simplified marker of EVERY accepted text is free of lark's
+  error (`invert_no_syntax_grammar_all`).
+NOT reached (named missing lemmas): for the
 simplifier (`MergeNoSyntax`): (a1) every `Version.text` inside a leaf constraint is plain, as an invariant of the
 version-constraint algebra, (a2) the values of string-constraint atoms stay lexable under `intersect`/`union`
 (`mkSingleOfC` prints `str(constraint)`), (a3) the rewritten `python_full_version` text of
@@ -1769,8 +1774,8 @@ theorem invert_single_err_classified (s : Single) (hn : s.name ∈ names) (hv : 
     (h : invertSimple s = .error e) : e = .runtime ∨ e = .value ∨ e = .unmodelled :=
   invertSimple_err vc_err_documented s hn hv e h
 
-/-- **L3. Leaves built from a plain input tree are lexable** — no condition on the values beyond being token
-values. -/
+/-- **L3. Leaves built from a lexable input tree are lexable** (swapped items included) — no condition on the values
+beyond being token values. -/
 theorem compact_leaves_lexable (syn : Syn) (subs : List M) (hl : SynLexIn syn)
     (h : compactSubMarkers syn = .ok subs) : ∀ m ∈ subs, M.Good LexLeaf m :=
   compactSubMarkers_lex syn subs hl h
@@ -1781,22 +1786,34 @@ theorem invert_no_syntax_of_input (syn : Syn) (m : M) (hl : SynLexIn syn) (hc : 
   invert_no_syntax m (compactRaw_lex syn m hl hc) e h
 
 /-- the grammar-level statement: for every accepted text, `invert` of the marker `_compact_markers` builds does not
-raise lark's error.  Proved for texts without swapped items and without `~=` (`invert_no_syntax_grammar`); open
-for those (missing lemmas (b), (a1) of the header). -/
+raise lark's error.  PROVED: `invert_no_syntax_grammar_all`. -/
 def invert_no_syntax_grammar_full_statement : Prop :=
   ∀ (s : String) (syn : Syn) (m : M) (e : PyErr), parseText s = .ok syn → compactRaw syn = .ok m →
     m.invert = .error e → e ≠ .syntax
 
-/-- **L4. For EVERY accepted text without swapped items and without `~=`, `invert` does not raise lark's error**
+/-- **L5. For EVERY accepted text, `invert` of the un-simplified marker does not raise lark's error** — swapped items
+and `~=` included: the `~=` inversion prints the bounds of the parsed constraint, whose texts are made of version
+characters (`VCOpsTotalT GoodVCT`, Proofs/ParserTotalVC5.lean). -/
+theorem invert_no_syntax_grammar_all : invert_no_syntax_grammar_full_statement :=
+  fun s syn m e hp hc h =>
+    compactRaw_invert_no_syntax vc_err_documented vcOpsTotalT_good.toMin vcOpsTotalT_good.textOkP syn m
+      (parseText_tok s syn hp) hc e h
+
+example : ∃ syn m, parseText "python_version ~= \"3.8\" and \"a\\\" in\" in os_name" = .ok syn ∧
+    compactRaw syn = .ok m :=
+  ⟨.more (.item "python_version" "~=" "3.8" false) false (.one (.item "os_name" "in" "a\\\" in" true)), _,
+    by decide +kernel, rfl⟩
+
+/-- **L4. For EVERY accepted text without an item `name ~= "value"`, `invert` does not raise lark's error**
 — whatever the values are (backslashes, both quote characters, white space, newlines in `'…'` tokens). -/
 theorem invert_no_syntax_grammar (s : String) (syn : Syn) (m : M) (e : PyErr) (hp : parseText s = .ok syn)
-    (hpl : SynPlain syn = true) (hc : compactRaw syn = .ok m) (h : m.invert = .error e) : e ≠ .syntax :=
+    (hpl : SynNoCompat syn = true) (hc : compactRaw syn = .ok m) (h : m.invert = .error e) : e ≠ .syntax :=
   invert_no_syntax_of_input syn m (synLexIn_of syn (parseText_tok s syn hp) hpl) hc e h
 
 /-- the hypotheses are met, e.g. by the text of the former counterexample with both quote characters: -/
 example : parseText "os_name == \"a\\\"'b\" and sys_platform != 'a\\'" =
       .ok (.more (.item "os_name" "==" "a\\\"'b" false) false (.one (.item "sys_platform" "!=" "a\\" false))) ∧
-    SynPlain (.more (.item "os_name" "==" "a\\\"'b" false) false (.one (.item "sys_platform" "!=" "a\\" false))) = true ∧
+    SynNoCompat (.more (.item "os_name" "==" "a\\\"'b" false) false (.one (.item "sys_platform" "!=" "a\\" false))) = true ∧
     ∃ m, compactRaw (.more (.item "os_name" "==" "a\\\"'b" false) false
       (.one (.item "sys_platform" "!=" "a\\" false))) = .ok m :=
   ⟨by decide +kernel, by decide, _, rfl⟩
@@ -1828,7 +1845,7 @@ theorem simplifier_block_no_syntax_partial (G : Leaf → Prop) (hM : MergeNoSynt
 /-- with Part X, the hypothesis reduces to: the merge of two invariant leaves is not lark's error -/
 theorem merge_no_syntax_of_ne
     (hne : ∀ l1 l2 b, LeafOK GoodVC l1 → LeafOK GoodVC l2 → mergeLeaves l1 l2 b ≠ .error .syntax) :
-    MergeNoSyntax (LeafOK GoodVC) := mergeNoSyntax_of_ne vc_err_documented vcOpsTotal_good hne
+    MergeNoSyntax (LeafOK GoodVC) := mergeNoSyntax_of_ne vc_err_documented vcOpsTotal_good.toMin hne
 
 /-- **`parse_marker(text)`, public function (partial): lark's error is the grammar's error on the INPUT** — if the
 text is accepted by the grammar, the remaining errors are `ValueError`, `.unmodelled`, fuel. -/
@@ -1836,7 +1853,7 @@ theorem parse_marker_top_syntax_is_input_partial (hM : MergeNoSyntax (LeafOK Goo
     (hp : parseText s = .ok syn) (e : PyErr) (h : parseMarkerTop s = .error e) :
     e = .value ∨ e = .unmodelled ∨ e = .fuel := by
   rcases parseMarkerTop_err s e h with ⟨hp', hne⟩ | ⟨_, hv⟩
-  · rcases parseMarker_no_syntax_of vc_err_documented vcOpsTotal_good hM s syn hp e hp' with h | h | h | h
+  · rcases parseMarker_no_syntax_of vc_err_documented vcOpsTotal_good.toMin hM s syn hp e hp' with h | h | h | h
     · exact .inr (.inr h)
     · exact absurd h hne
     · exact .inl h
@@ -1861,40 +1878,55 @@ theorem req_parse_top_no_syntax_partial (hM : MergeNoSyntax (LeafOK GoodVC)) (s 
     · exact .inl h
     · exact .inr (.inl h)
     · exact .inl (vc_parse_err_documented _ false e h)
-    · rcases compactTop_no_syntax_of vc_err_documented vcOpsTotal_good hM syn e h with h | h | h | h
+    · rcases compactTop_no_syntax_of vc_err_documented vcOpsTotal_good.toMin hM syn e h with h | h | h | h
       · exact .inr (.inr h)
       · exact absurd h hne
       · exact .inl h
       · exact .inr (.inl h)
   · exact .inl hv
 
-/-! ## the simplifier on markers that do not mention `python_version` / `python_full_version`: no hypothesis -/
+/-! ## the simplifier on markers that do not mention BOTH python-version variables: no hypothesis -/
 
-/-- **S′. The named hypothesis discharged away from the python-version variables.**  Both re-parsing steps of
-`_merge_single_markers` sit in its `python_version` / `python_full_version` branches; on leaves named otherwise
-(`NoPyOK`: the Part X invariant, a grammar name other than those two, spelt canonically) the merge returns such
-leaves again and fails with fuel / `ValueError` / `.unmodelled` only. -/
-theorem merge_no_syntax_nopy : MergeNoSyntax (NoPyOK GoodVC) :=
-  mergeNoSyntax_noPy vc_err_documented vcOpsTotal_good
+/-- **S′. The named hypothesis discharged unless both python-version variables occur.**  The two re-parsing steps of
+`_merge_single_markers` are: the candidate `python_version == "<lower bound>"` (reached when the first leaf is named
+`python_version`) and the rewriting of a merged `python_full_version` marker (reached for a `python_version` /
+`python_full_version` pair).  (1) Without a leaf named `python_version` neither is reached. -/
+theorem merge_no_syntax_no_pv : MergeNoSyntax (NamedOK GoodVC namesNoPv) :=
+  mergeNoSyntax_noPv vc_err_documented vcOpsTotal_good.toMin
 
-/-- hence the whole simplifier, on such markers: no lark error (and the invariant is preserved) -/
-theorem simplifier_no_syntax_nopy (fuel : Nat) (stk : Stack) (ms : List M)
-    (hg : ∀ m ∈ ms, M.Good (NoPyOK GoodVC) m) (e : PyErr) (h : unionF fuel stk ms = .error e) :
+/-- (2) Without a leaf named `python_full_version` only the candidate is re-parsed, and its text is read back because
+the texts of all bounds are made of version characters (`VCOpsTotalT GoodVCT`, Proofs/ParserTotalVC5.lean). -/
+theorem merge_no_syntax_no_pfv : MergeNoSyntax (NamedOK GoodVCT namesNoPfv) :=
+  mergeNoSyntax_noPfv vc_err_documented vcOpsTotalT_good.toMin (siteAOk_of_text vcOpsTotalT_good.textOkP)
+
+/-- hence the whole simplifier on such markers: no lark error (and the invariants are preserved) -/
+theorem simplifier_no_syntax_no_pv (fuel : Nat) (stk : Stack) (ms : List M)
+    (hg : ∀ m ∈ ms, M.Good (NamedOK GoodVC namesNoPv) m) (e : PyErr) (h : unionF fuel stk ms = .error e) :
     e = .fuel ∨ e = .recursion ∨ e = .value ∨ e = .unmodelled :=
-  simplifier_no_syntax_partial _ merge_no_syntax_nopy fuel stk ms hg e h
+  simplifier_no_syntax_partial _ merge_no_syntax_no_pv fuel stk ms hg e h
 
-/-- what `_compact_markers` builds from an accepted text without python-version items is of that kind -/
-theorem compact_leaves_nopy (s : String) (syn : Syn) (subs : List M) (hp : parseText s = .ok syn)
-    (hnp : SynNoPy syn = true) (h : compactSubMarkers syn = .ok subs) : ∀ m ∈ subs, M.Good (NoPyOK GoodVC) m :=
-  compactSubMarkers_noPy vc_err_documented vcOpsTotal_good syn subs (parseText_tok s syn hp) hnp h
+theorem simplifier_no_syntax_no_pfv (fuel : Nat) (stk : Stack) (ms : List M)
+    (hg : ∀ m ∈ ms, M.Good (NamedOK GoodVCT namesNoPfv) m) (e : PyErr) (h : unionF fuel stk ms = .error e) :
+    e = .fuel ∨ e = .recursion ∨ e = .value ∨ e = .unmodelled :=
+  simplifier_no_syntax_partial _ merge_no_syntax_no_pfv fuel stk ms hg e h
 
-/-- **`parse_marker(text)`, public function, for every accepted text that does not mention `python_version` /
-`python_full_version`: lark's error cannot occur** — `ValueError`, `.unmodelled`, fuel only.  No hypothesis. -/
-theorem parse_marker_top_no_syntax_nopy (s : String) (syn : Syn) (hp : parseText s = .ok syn)
-    (hnp : SynNoPy syn = true) (e : PyErr) (h : parseMarkerTop s = .error e) :
+/-- the tree condition: no item on `python_version`, or no item on `python_full_version` (decidable) -/
+def SynNotBothPy (syn : Syn) : Bool := SynIn namesNoPv syn || SynIn namesNoPfv syn
+
+/-- **`parse_marker(text)`, public function, for every accepted text that does not mention BOTH `python_version`
+and `python_full_version`: lark's error cannot occur** — `ValueError`, `.unmodelled`, fuel only.  No hypothesis. -/
+theorem parse_marker_top_no_syntax_not_both (s : String) (syn : Syn) (hp : parseText s = .ok syn)
+    (hnb : SynNotBothPy syn = true) (e : PyErr) (h : parseMarkerTop s = .error e) :
     e = .value ∨ e = .unmodelled ∨ e = .fuel := by
   rcases parseMarkerTop_err s e h with ⟨hp', hne⟩ | ⟨_, hv⟩
-  · rcases parseMarker_noPy vc_err_documented vcOpsTotal_good s syn hp hnp e hp' with h | h | h | h
+  · have key : e = .fuel ∨ e = .recursion ∨ e = .value ∨ e = .unmodelled := by
+      simp only [SynNotBothPy, Bool.or_eq_true] at hnb
+      rcases hnb with hnb | hnb
+      · exact parseMarker_named vc_err_documented vcOpsTotal_good.toMin namesNoPv aliasClosed_noPv
+          merge_no_syntax_no_pv s syn hp hnb e hp'
+      · exact parseMarker_named vc_err_documented vcOpsTotalT_good.toMin namesNoPfv aliasClosed_noPfv
+          merge_no_syntax_no_pfv s syn hp hnb e hp'
+    rcases key with h | h | h | h
     · exact .inr (.inr h)
     · exact absurd h hne
     · exact .inl h
@@ -1902,36 +1934,43 @@ theorem parse_marker_top_no_syntax_nopy (s : String) (syn : Syn) (hp : parseText
   · exact .inl hv
 
 /-- … so for such texts lark's error is the grammar's error on the input -/
-theorem parse_marker_top_syntax_is_input_nopy (s : String) (h : parseMarkerTop s = .error .syntax)
-    (hnp : ∀ syn, parseText s = .ok syn → SynNoPy syn = true) : parseText s = .error .syntax := by
+theorem parse_marker_top_syntax_is_input_not_both (s : String) (h : parseMarkerTop s = .error .syntax)
+    (hnb : ∀ syn, parseText s = .ok syn → SynNotBothPy syn = true) : parseText s = .error .syntax := by
   cases hp : parseText s with
   | error e => rw [marker_parse_err_documented s e hp]
   | ok syn =>
-    rcases parse_marker_top_no_syntax_nopy s syn hp (hnp syn hp) _ h with h | h | h <;> cases h
+    rcases parse_marker_top_no_syntax_not_both s syn hp (hnb syn hp) _ h with h | h | h <;> cases h
 
-/-- **`Requirement(text)`, public constructor, when the marker part does not mention the python-version
-variables: no lark error at all.**  No hypothesis. -/
-theorem req_parse_top_no_syntax_nopy (s : String) (e : PyErr) (h : Req.parseTop s = .error e)
-    (hnp : ∀ raw syn, Req.parseRaw s.toList = some raw → raw.marker = some syn → SynNoPy syn = true) :
+/-- **`Requirement(text)`, public constructor, when the marker part does not mention both python-version variables:
+no lark error at all.**  No hypothesis. -/
+theorem req_parse_top_no_syntax_not_both (s : String) (e : PyErr) (h : Req.parseTop s = .error e)
+    (hnb : ∀ raw syn, Req.parseRaw s.toList = some raw → raw.marker = some syn → SynNotBothPy syn = true) :
     e = .value ∨ e = .unmodelled ∨ e = .fuel := by
   rcases Req.guardRecursion_err _ e h with ⟨hp, hne⟩ | ⟨_, hv⟩
   · rcases req_parse_err_decomposed s e hp with h | h | ⟨raw, _, h⟩ | ⟨raw, syn, hr, hs, h⟩
     · exact .inl h
     · exact .inr (.inl h)
     · exact .inl (vc_parse_err_documented _ false e h)
-    · rcases compactTop_noPy vc_err_documented vcOpsTotal_good syn (parseRaw_marker_tok _ raw syn hr hs)
-          (hnp raw syn hr hs) e h with h | h | h | h
+    · have key : e = .fuel ∨ e = .recursion ∨ e = .value ∨ e = .unmodelled := by
+        have hnb' := hnb raw syn hr hs
+        simp only [SynNotBothPy, Bool.or_eq_true] at hnb'
+        rcases hnb' with hnb' | hnb'
+        · exact compactTop_named vc_err_documented vcOpsTotal_good.toMin namesNoPv aliasClosed_noPv
+            merge_no_syntax_no_pv syn hnb' e h
+        · exact compactTop_named vc_err_documented vcOpsTotalT_good.toMin namesNoPfv aliasClosed_noPfv
+            merge_no_syntax_no_pfv syn hnb' e h
+      rcases key with h | h | h | h
       · exact .inr (.inr h)
       · exact absurd h hne
       · exact .inl h
       · exact .inr (.inl h)
   · exact .inl hv
 
-example : parseText "os_name == 'a\\' and (sys_platform != \"x\" or extra == 'y')" =
-      .ok (.more (.item "os_name" "==" "a\\" false) false (.one (.paren (.more (.item "sys_platform" "!=" "x" false)
-        true (.one (.item "extra" "==" "y" false)))))) ∧
-    SynNoPy (.more (.item "os_name" "==" "a\\" false) false (.one (.paren (.more (.item "sys_platform" "!=" "x" false)
-        true (.one (.item "extra" "==" "y" false)))))) = true :=
+example : parseText "python_version >= \"3.8\" and (sys_platform != \"x\" or extra == 'y')" =
+      .ok (.more (.item "python_version" ">=" "3.8" false) false (.one (.paren (.more
+        (.item "sys_platform" "!=" "x" false) true (.one (.item "extra" "==" "y" false)))))) ∧
+    SynNotBothPy (.more (.item "python_version" ">=" "3.8" false) false (.one (.paren (.more
+        (.item "sys_platform" "!=" "x" false) true (.one (.item "extra" "==" "y" false)))))) = true :=
   ⟨by decide +kernel, by decide⟩
 
 end Poetry.C19
